@@ -48,7 +48,7 @@ func (k Keeper) RequestModuleService(
 		return sdkerrors.Wrap(types.ErrUnknownRequestContext, reqContextID.String())
 	}
 
-	_, totalPrices, _, err := k.FilterServiceProviders(
+	providers, totalPrices, _, err := k.FilterServiceProviders(
 		ctx,
 		requestContext.ServiceName,
 		requestContext.Providers,
@@ -58,6 +58,15 @@ func (k Keeper) RequestModuleService(
 	)
 	if err != nil {
 		return err
+	}
+
+	// the request below is charged with the price returned by the filter
+	if len(providers) == 0 {
+		return sdkerrors.Wrapf(
+			types.ErrInvalidModuleService,
+			"module service %s is unavailable or its price exceeds the service fee cap %s",
+			requestContext.ServiceName, requestContext.ServiceFeeCap,
+		)
 	}
 
 	if err := k.DeductServiceFees(ctx, consumer, totalPrices); err != nil {
